@@ -17,6 +17,14 @@ OBLIGATIONS.append(ob('C12.cache.injective', 'verif_frag::regexkeys::c12_cache_k
 for _n in ['eq', 'ne', 'eeq', 'ene', 'rx', 'notrx', 'like', 'notlike']:
     OBLIGATIONS.append(ob(f'C12.op.table.{_n}', OPS + f'c11_op_{_n}', f'Op::from maps every documented spelling of the operator `{_n}` to that operator (same harness as C11.alias.op.{_n})', engine='K', units=['operators']))
 OBLIGATIONS.append(ob('C12.op.negation', OPS + 'c03_negate_contract', 'each negative operator is the documented complement of its positive counterpart: contract of Op::negate (same as C03.negate.pairs)', engine='K', units=['operators'], twin=OPS + 't03_negate_pairs'))
-CANARIES = [dict(harness=G + 'canary_glob_must_fail', units=['globtables'])]
+SA = 'verif_frag::strarm::'
+for _h, _d in [('glob', '`=` / `!=` with a wildcard: 4 witnesses (a*.txt, a?.txt against matching / non-matching names): the result is what the property demands and `!=` its complement; if a regex is compiled it is the glob translation of the pattern, matched against the subject'),
+               ('glob_edge', 'edge witnesses: prefix/suffix overlap (ab*ba vs aba: no match), empty run (abba), letter case (*.TXT vs ab.txt), two stars'),
+               ('plain', '`=` / `!=` without wildcard: text equality / its complement, no regex compiled, regex metacharacters match only themselves'),
+               ('strict', '`===` / `!==`: literal text comparison even when the pattern contains * or ?'),
+               ('rx_like', '`=~` / `!=~` compile the pattern text itself, `like` / `notlike` its LIKE translation (no glob expansion); negatives are complements'),
+               ('cached', 'a second evaluation gives the same answer; the same text under another operator kind is not answered by the cached regex of the first')]:
+    OBLIGATIONS.append(ob(f'C12.arm.{_h}', SA + f'c12_arm_{_h}', 'String arm of Searcher::conforms (whole block verbatim on a shim world; the shim Regex answers as a correct engine would for the correct translation of the witness pattern and flags any other use): ' + _d, units=['strarm'], complete=False, bound='concrete subject / pattern witnesses'))
+CANARIES = [dict(harness=G + 'canary_glob_must_fail', units=['globtables']), dict(harness=SA + 'canary_strarm_must_fail', units=['strarm'])]
 ASSUMPTIONS = ['printable ASCII only (the property alphabet); non-ASCII characters are not regex metacharacters']
-NOT_COVERED = ['anchoring ^..$ and case-insensitivity (?i)', 'the regex engine itself', 'the Eq/Ne/Like/NotLike/Rx branches of conforms and the shared regex_cache keyed by pattern text', 'is_glob']
+NOT_COVERED = ['anchoring ^..$ and case-insensitivity (?i)', 'the regex engine itself', 'the String arm of conforms beyond the witness texts']
